@@ -154,3 +154,15 @@ func Solve(script string, timeoutSec int, strs bool, all bool) SolveResult {
 }
 
 const smtPrelude = "(set-logic ALL)\n"
+
+func (r *SolveResult) allErrors() bool {
+	if len(r.Runs) == 0 {
+		return false
+	}
+	for _, x := range r.Runs {
+		if x.Result != "error" {
+			return false
+		}
+	}
+	return true
+}
